@@ -159,9 +159,9 @@ def run(ctx):
         else:
             args += ["--corpus", os.path.join(vlib.VERIF, "corpus", "C15", "cases.txt")]
             if quick:
-                args += ["--np", "4000", "--nf", "3000", "--nz", "3000"]
+                args += ["--np", "4000", "--nf", "2500", "--nz", "2500", "--nd", "1500"]
             else:
-                args += ["--np", "40000", "--nf", "25000", "--nz", "25000"]
+                args += ["--np", "40000", "--nf", "25000", "--nz", "25000", "--nd", "12000"]
         vlib.run(args, timeout=3000)
     finally:
         shutil.rmtree(scratch, ignore_errors=True)
@@ -208,6 +208,7 @@ def run(ctx):
                     "P": "module.CheckFilePath / path.Clean / strToFold / splitCUEMod differs from the model for which C15_checked_path_safe is proved",
                     "F": "modzip.CheckFiles / CheckZip / Create / Unzip(Create(files)) differs from the model (sections: file-list check | zip check of the same files | created archive | tree after unzip)",
                     "Z": "modzip.CheckZip / Unzip on a hand-written archive differs from the model (sections: zip check | result and tree of the watched directory after Unzip)",
+                    "D": "modzip.CheckDir / CreateFromDir on a materialised directory tree differs from the model (listFilesInDir walk order and omissions, then checkFiles / Create)",
                 }.get(k, "?")
                 ctx.violation({"kind": "impl-differs-from-proved-model", "case": c, "impl": i, "model": m, "what": what,
                                "replay": "bin/check C15 --replay <this file>"})
@@ -254,6 +255,18 @@ def run(ctx):
                     else:
                         ctx.violation({"kind": "checks-disagree-outside-known-classes", "case": c, "impl": i, "model": m,
                                        "what": "CheckFiles and CheckZip reject different files for a regular-only list with nothing omitted, and the list is in none of the classes proved to be the only ones (C15_checks_agree_when)"})
+        elif k == "D":
+            secs = i.split(" | ")
+            cd = parse_fields(secs[0])
+            err = cd["SE"] == "1" or cd["NM"] == "1" or cd["I"] != ""
+            dist["dir_check_err" if err else "dir_check_ok"] += 1
+            dist["create_from_dir_ok" if secs[1].startswith("C=OK") else "create_from_dir_err"] += 1
+            nleaves = len(c.split(" | ")[2].split())
+            nvalid = len([x for x in cd["V"].split(",") if x])
+            if nvalid < sum(1 for w in c.split(" | ")[2].split() if w.split(":")[1] == "r"):
+                dist["dir_with_unlisted_regular_files"] += 1
+            if new and nleaves >= 3 and nvalid >= 2:
+                nontrivial += 1
         elif k == "Z":
             secs = i.split(" | ")
             cz = parse_fields(secs[0])
@@ -280,7 +293,7 @@ def run(ctx):
         "audit_files": proof["audit_files"],
         "evaluations": len(cases),
         "distinct_nontrivial": nontrivial,
-        "rule": "P: one path (every pool element alone / under sub/ / as a directory, then generated paths of 1-45 elements from pools of plain, special (cue.mod, LICENSE, vendor, VCS), case-variant, reserved Windows, dot, forbidden-ASCII, Unicode (fold orbits k/K/Kelvin, s/long s, sigma, dz digraphs, ...), invalid UTF-8 and long elements, with leading/trailing/double slashes and ./.. spices); F: a file list (mostly valid modules, 0-5 spices: hostile path, case variant, duplicate, file-and-directory, nested cue.mod, root cue.mod file, local-module, vendor, hg archival, wrong-case cue.mod, symlink/irregular/dir kinds, sizes around MaxCUEMod/MaxLICENSE/MaxZipFile, negative and huge sizes, content longer/shorter than Lstat size) run through CheckFiles, CheckZip of the same regular files, Create, and Unzip of the created archive; Z: a hand-written zip (entries of such a module, 0-4 spices: hostile names, directory entries, declared sizes +-1 / 2^32 / 2^63 / around the limits, bad CRC, unsupported method, symlink/dir/pipe mode bits, duplicates, case variants, empty name, existing/non-empty/file target, lied zip size) run through CheckZip and Unzip into a fresh directory under a watched parent. non-trivial: P accepted with >= 2 elements; F >= 3 files with >= 2 valid; Z >= 3 entries; counted over distinct case lines",
+        "rule": "P: one path (every pool element alone / under sub/ / as a directory, then generated paths of 1-45 elements from pools of plain, special (cue.mod, LICENSE, vendor, VCS), case-variant, reserved Windows, dot, forbidden-ASCII, Unicode (fold orbits k/K/Kelvin, s/long s, sigma, dz digraphs, ...), invalid UTF-8 and long elements, with leading/trailing/double slashes and ./.. spices); F: a file list (mostly valid modules, 0-5 spices: hostile path, case variant, duplicate, file-and-directory, nested cue.mod, root cue.mod file, local-module, vendor, hg archival, wrong-case cue.mod, symlink/irregular/dir kinds, sizes around MaxCUEMod/MaxLICENSE/MaxZipFile, negative and huge sizes, content longer/shorter than Lstat size) run through CheckFiles, CheckZip of the same regular files, Create, and Unzip of the created archive; Z: a hand-written zip (entries of such a module, 0-4 spices: hostile names, directory entries, declared sizes +-1 / 2^32 / 2^63 / around the limits, bad CRC, unsupported method, symlink/dir/pipe mode bits, duplicates, case variants, empty name, existing/non-empty/file target, lied zip size) run through CheckZip and Unzip into a fresh directory under a watched parent. non-trivial: P accepted with >= 2 elements; F >= 3 files with >= 2 valid; Z >= 3 entries; D (the consistent part of such a file list materialised as a real directory tree with regular files, symlinks, fifos and directories, run through CheckDir and CreateFromDir) >= 3 leaves with >= 2 valid; counted over distinct case lines",
         "samples": samples,
         "case_kinds": dict(kinds),
         "input_distribution": dict(dist),
@@ -296,7 +309,7 @@ def run(ctx):
 
 MANIFEST = {
     "category": "proof",
-    "text": "TODO",
-    "note": "TODO",
-    "technique": "Coq proof (path-safety lemma, collision-table invariant, file-system confinement invariant, lock-step simulation of the file-list and zip checks) + extracted-model differential check of CheckFilePath/CheckFiles/CheckZip/Create/Unzip incl. the resulting directory tree",
+    "text": "Coq theorems about an executable model of mod/modzip/zip.go and mod/module/path.go, for ALL names, file lists, archives, file systems and Unicode tables: a name accepted by CheckFilePath is relative, clean, has no empty/./.. element and no backslash, colon or NUL; for every archive Unzip only adds fresh entries that are directories on the way to the target or lie strictly beneath it, regular files of at most the declared size, created once, and a rejected archive leaves the file system untouched; absolute/dot-dot/backslash names, fold-colliding or duplicate names, file/directory clashes, nested or mis-cased cue.mod, a local-module file, oversized module/licence/total and a missing module file are each rejected; header mode bits (symlink, irregular) are never consulted; every archive Create emits passes CheckZip and extracts to exactly the valid files with identical content; CheckFiles and CheckZip give every file the same verdict under an explicit side condition, and without it they provably differ (known finding F7: a regular root file cue.mod; a mis-cased cue.mod/module.cue name poisoning CheckZip's collision table). The model is tied to /repo by exact agreement with module.CheckFilePath, strToFold, splitCUEMod, CheckFiles, CheckDir, CheckZip, Create, CreateFromDir and Unzip (verdict lists, created archive, resulting directory tree of a watched parent directory) on generated and corpus names, file lists, real directory trees and hand-written zip archives.",
+    "note": "Trusted: Coq kernel; the hand-written model (incl. path.Clean/Split/Dir, filepath.Join at element level, MkdirAll/O_EXCL on an association-list file system); Unicode oracles unicode.IsLetter / SimpleFold supplied per case by Go's unicode package (theorems hold for every oracle); strings.EqualFold against the ASCII literals modelled as ASCII folding; archive/zip (central directory order, checksumReader's ErrFormat/ErrUnexpectedEOF/ErrChecksum behaviour for entries <= 32 KiB) and the OS file system are modelled and validated only by the correspondence; NAME_MAX/PATH_MAX, I/O errors, Lstat errors and zip.Writer failures are not modelled; extraction (ExtrOcamlBasic, no Extract Constant) cross-checked by vm_compute on a sub-sample; OCaml/Go drivers. The O_EXCL flag and the post-copy `lr.N <= 0` test of Unzip are unobservable defence in depth (collision freedom is a theorem; archive/zip already bounds the stream), as is the path.Clean test of CheckZip (implied by CheckFilePath, a theorem).",
+    "technique": "Coq proof (path-safety lemma, collision-table invariant, file-system confinement invariant, simulation of the zip check by the file-list check, lock-step agreement with exact side condition and computed refutation witnesses) + extracted-model differential check of CheckFilePath/CheckFiles/CheckDir/CheckZip/Create/Unzip incl. the resulting directory tree",
 }
